@@ -52,7 +52,8 @@ RULE = ("all 14 estimator class variants x real/complex data x NFFT in {None, ne
         "pole + zero, near-circle zero times a random factor, random models; real and complex, ndarray and list, NFFT 4..64 and "
         "100..4097; per bin also: finite, never negative, T -> c*T divides and rho -> c*rho multiplies every bin (nulls included) by one factor; "
         "HISTORIES ON ONE OBJECT (kind hist): all 14 class variants x real/complex (NFFT 64 / 45 / None / nextpow2 / 127 / 48, default and random "
-        "configurations in the thorough tier): the estimate is computed, the object is put in a non-default layout (sides = twosided / centerdc for "
+        "configurations in the thorough tier; also the option variants: 6 of the 34 combinations per quick run, all in the thorough tier), a second "
+        "object of the class kept alive in a non-default layout must come out untouched: the estimate is computed, the object is put in a non-default layout (sides = twosided / centerdc for "
         "real data, centerdc for complex data, 'default'), then scale_by_freq is flipped (either direction, twice without a read in between, to the "
         "value it has), sampling re-assigned (float and int, and back), NFFT changed (and back), in every order, before the first computation, "
         "interleaved with psd / o() / run() / get_converted_psd / frequencies reads and with rejected assignments (unknown sides, NFFT 0 / 2.5, "
@@ -553,8 +554,8 @@ def oracle_entry(p):
 # Nothing is demanded about WHICH layout the object is in after an assignment (the library resets it to the default one when it
 # recomputes): only that psd, sides and frequencies() describe the same, correct, function of frequency.
 #
-# Tolerance HIST_TOL = 1e-12, bin-wise relative.  Measured on the unchanged tree (5 quick seeds + 2 thorough generator rounds, all input variants,
-# ~41000 compared arrays): (a) is bit-identical (0.0) -- both objects run the same computation --; (b) differs by at most 4.5e-16 (three
+# Tolerance HIST_TOL = 1e-12, bin-wise relative.  Measured on the unchanged tree (8 quick seeds + 2 thorough generator rounds, all input variants,
+# ~62000 compared arrays): (a) is bit-identical (0.0) -- both objects run the same computation --; (b) differs by at most 4.5e-16 (three
 # roundings: sampling factor, 2*pi/df, the halving of a two-sided layout); 1e-12 is > 2000x that.
 
 HIST_TOL = 1e-12
@@ -615,7 +616,7 @@ def hist_tags(p):
     isreal = np.isrealobj(p["x"])
     dflt = "onesided" if isreal else "twosided"
     lay, upd, scale, fs = dflt, False, p["scale"], p["fs"]
-    tags = set(["hist", "hist:" + p["cls"], "hist:" + ("real" if isreal else "complex"), "hist:tmpl-" + p.get("tmpl", "?")])
+    tags = set(["hist", "hist:" + (p.get("opt") or p["cls"]), "hist:" + ("real" if isreal else "complex"), "hist:tmpl-" + p.get("tmpl", "?")])
     for op in p["ops"]:
         w = op[0]
         if w in ("read", "call", "run", "obs", "conv"):
@@ -648,7 +649,7 @@ def hist_tags(p):
 
 def oracle_hist(p):
     x = np.asarray(p["x"])
-    cls, cfg, fs0 = p["cls"], p.get("cfg"), p["fs"]
+    cls, cfg, fs0 = p.get("opt") or p["cls"], p.get("cfg"), p["fs"]          # "opt": one of OPTS (option values other than the defaults)
     isreal = np.isrealobj(x)
     dflt = "onesided" if isreal else "twosided"
     layouts = SIDES if isreal else SIDES[:2]
@@ -658,11 +659,14 @@ def oracle_hist(p):
     measure = bool(__import__("os").environ.get("C08_HIST_MEASURE"))
     base = {}
 
+    def make(nfft_arg, fs, scale):
+        return opt_make(p["opt"], x, nfft_arg, fs, scale) if p.get("opt") else C.make(cls, x, nfft_arg, fs, scale, cfg)
+
     def a0(nfft_arg):
         """fresh, unscaled, original sampling frequency, default layout: the reference of the formula"""
         k = str(nfft_arg)
         if k not in base:
-            base[k] = np.array(C.make(cls, x, nfft_arg, fs0, False, cfg).psd)
+            base[k] = np.array(make(nfft_arg, fs0, False).psd)
         return base[k]
 
     def formula(sd):
@@ -686,7 +690,12 @@ def oracle_hist(p):
                                                            "the sampling factor, times 2*pi/df once" if st["scale"] else "the sampling factor"),
                                                        worst(got, ref), done(i)))
 
-    o = C.make(cls, x, p["nfft"], fs0, p["scale"], cfg)
+    o = make(p["nfft"], fs0, p["scale"])
+    # a second object of the same class, alive and in a non-default layout during the whole history: it must not notice anything
+    sib = make(p["nfft"], fs0, p["scale"])
+    sib.psd
+    sib.sides = layouts[1]
+    sib_psd = np.array(sib.psd)
     for i, op in enumerate(p["ops"]):
         w = op[0]
         if w == "read":
@@ -759,7 +768,7 @@ def oracle_hist(p):
                         tag, "" if fL is f else repr(L), st["fs"], nfft, sd, "length %d, expected %d" % (fL.size, axis.size) if fL.shape != axis.shape else
                         "max deviation %.3e" % float(np.max(np.abs(fL - axis))), done(i)))
             # (a) a fresh object with the final attribute values, brought to the same layout
-            fr = C.make(cls, x, st["nfft_arg"], st["fs"], st["scale"], cfg)
+            fr = make(st["nfft_arg"], st["fs"], st["scale"])
             fr.psd
             if sd != dflt:
                 fr.sides = sd
@@ -777,6 +786,9 @@ def oracle_hist(p):
             raise ValueError(op)
         if len(out) >= 4:
             break
+    if sib.sides != layouts[1] or not np.array_equal(np.array(sib.psd), sib_psd):
+        out.append("%s: a second %s object (sides %r), untouched during the history, reports another psd / sides (%r) afterwards [%s]" % (
+            tag, cls, layouts[1], sib.sides, done(len(p["ops"]) - 1)))
     return out
 
 
@@ -869,6 +881,23 @@ def gen_hist(nrng, thorough):
                     if cfg is not None:
                         q["cfg"] = cfg
                     yield ("hist", q)
+    # option values other than the defaults (OPTS; N = 40, NFFT >= N): quick 6 of the 34 variant x real/complex combinations, thorough all
+    k = 0
+    pick = int(nrng.integers(0, 6))
+    for io, opt in enumerate(OPTS):
+        for cplx in (False, True):
+            k += 1
+            if not thorough and k % 6 != pick:
+                continue
+            x = C.test_data(nrng, 40, cplx)
+            nfft = [64, 45, None, "nextpow2"][(k // 2) % 4]
+            nfft_int = C.resolved_nfft(x, nfft)
+            fs = float(10 ** nrng.uniform(-2, 5))
+            cfac = [4.0, 0.5, 250.0, 2.0][k % 4]
+            s = bool((k // 3) % 2)
+            T = _hist_templates(nrng, not cplx, s, fs, cfac, nfft_int, [48, 51, 80, 41][k % 4])
+            for nm in (HIST_TMPL if thorough else ("flip", HIST_TMPL[1 + (k // 6 + rot) % 6])):
+                yield ("hist", {"cls": opt.split(":")[0], "opt": opt, "x": x, "nfft": nfft, "fs": fs, "scale": s, "c": cfac, "tmpl": nm, "ops": T[nm]})
 
 
 # ---- option values other than the defaults ---------------------------------------------------------------
@@ -1084,7 +1113,7 @@ KINDS = {
     "entry": {"oracle": oracle_entry, "key": _key_x,
               "tags": lambda p: ["entry:" + p["cls"], "entry:" + ("complex" if np.iscomplexobj(p["x"]) else "real"), "entry:" + _nfft_tag(p)]},
     "hist": {"oracle": oracle_hist,
-             "key": lambda p: "%s|%s|%d" % (_key_x(p), p.get("tmpl"), zlib.crc32(repr(to_plain(p["ops"])).encode()) & 0xFFFFFF),
+             "key": lambda p: "%s|%s|%s|%d" % (_key_x(p), p.get("opt"), p.get("tmpl"), zlib.crc32(repr(to_plain(p["ops"])).encode()) & 0xFFFFFF),
              "tags": hist_tags},
     "opts": {"impl": impl_opts, "model": model_opts, "oracle": oracle_opts, "rtol": 1e-9, "atol": 1e-300, "key": _key_x,
              "tags": lambda p: ["opt:" + p["opt"], "opt:" + ("complex" if np.iscomplexobj(p["x"]) else "real"), "opt:" + _nfft_tag(p)]},
